@@ -506,6 +506,16 @@ func (s *expSession) runOps1(i int, op plan.Op) {
 		s.opTmpl(i, op)
 	case "resend":
 		s.opResend(i, op)
+	case "emptyprep":
+		// a batch that turned out empty: the Set was prepared for a template, nothing was added, it is
+		// not sent; the application resets and prepares it for whatever comes next, as always
+		if ti := s.tmpls[int(op.A)]; ti != nil {
+			s.set.ResetSet()
+			if err := s.set.PrepareSet(entities.Data, ti.ID); err != nil {
+				panic(err)
+			}
+			s.env.Count("probe.set_prepared_and_left_empty", 1)
+		}
 	case "data":
 		s.opData(i, op)
 	case "dataunk":
@@ -603,9 +613,11 @@ func (s *expSession) opTmpl(i int, op plan.Op) {
 		// any time): one more template message, nothing else changes
 		specs = old.Specs
 	}
-	if len(specs) == 0 {
+	if len(specs) == 0 && op.S != "empty" {
 		return
 	}
+	// (S == "empty": a template record without fields - the shape RFC 7011 8.1 uses to withdraw a
+	// template. The exporting process takes it like any other template; no data is sent for it.)
 	// B > len: the listed elements repeated up to B fields (templates around the message size limit)
 	for k := 0; int64(len(specs)) < op.B && op.B <= 17000; k++ {
 		specs = append(specs, specs[k])
@@ -746,7 +758,7 @@ func (s *expSession) estimate(op plan.Op) int {
 func (s *expSession) opData1(i int, op plan.Op) {
 	slot := int(op.A)
 	ti := s.tmpls[slot]
-	if ti == nil || ti.Ambiguous {
+	if ti == nil || ti.Ambiguous || len(ti.Specs) == 0 {
 		return
 	}
 	if op.C%4 == 2 && len(op.F) == 0 && op.S != "v2" && ti.Sent {
